@@ -99,12 +99,15 @@ type mailItem struct {
 //go:norace
 func (s *Sim) post(it *mailItem) {
 	n := len(s.mail)
-	bigger := make([]*mailItem, n+1)
-	for i := 0; i < n; i++ {
-		bigger[i] = s.mail[i]
+	if n == cap(s.mail) {
+		bigger := make([]*mailItem, n, 2*n+8)
+		for i := 0; i < n; i++ {
+			bigger[i] = s.mail[i]
+		}
+		s.mail = bigger
 	}
-	bigger[n] = it
-	s.mail = bigger
+	s.mail = s.mail[:n+1]
+	s.mail[n] = it
 }
 
 //go:norace
@@ -233,12 +236,15 @@ func (s *Sim) addWaiter(chans []unsafe.Pointer) *chanWaiter {
 		}
 	}
 	n := len(s.waiters)
-	bigger := make([]*chanWaiter, n+1)
-	for i := 0; i < n; i++ {
-		bigger[i] = s.waiters[i]
+	if n == cap(s.waiters) {
+		bigger := make([]*chanWaiter, n, 2*n+8)
+		for i := 0; i < n; i++ {
+			bigger[i] = s.waiters[i]
+		}
+		s.waiters = bigger
 	}
-	bigger[n] = w
-	s.waiters = bigger
+	s.waiters = s.waiters[:n+1]
+	s.waiters[n] = w
 	return w
 }
 
@@ -642,4 +648,16 @@ func OnceValues[T1, T2 any](f func() (T1, T2)) func() (T1, T2) {
 		defer Unlocking()
 		return f()
 	})
+}
+
+// SendTo and TrySender fix the element type from the channel alone, so that
+// the value undergoes the ordinary assignment conversion (a concrete value
+// sent on a channel of interface type), which type inference over both
+// arguments would reject.
+func SendTo[T any](ch chan<- T) func(T) {
+	return func(v T) { Send(ch, v) }
+}
+
+func TrySender[T any](ch chan<- T) func(T) bool {
+	return func(v T) bool { return TrySend(ch, v) }
 }
